@@ -145,6 +145,14 @@ PARSE_TEXTS = [">=2,<1", ">1,<1", ">=1,<=1", "==1.0,!=1.0", "!=1.0,!=1.0", "<1||
                # the interpreter models functools.lru_cache / cache)
                "!=1.*", "!=1.0.*", "==1.*", "==1.0.*", "~=1.4", "~=1.4.0", "!=2.0.*", "!=2.*", "==3.0.0.*", "==3.*", "~=2.0.0", "~=2.0", ">=1.0", ">=1.0.0",
                "!=1.5.0", "!=1.5", "==1.4.0", "==1.4"]
+# structured family: every pair of clauses over one or two bound values (incl. the two spellings of one version), exhaustively
+_OPS2 = (">", ">=", "<", "<=", "==", "!=", "~=")
+for _a, _b in (("1.0", "1.0"), ("1.0", "1.0.0"), ("1.0", "2.0"), ("2.0", "1.0"), ("1.4", "1.5")):
+    for _o1 in _OPS2:
+        for _o2 in _OPS2:
+            _t = f"{_o1}{_a},{_o2}{_b}"
+            if _t not in PARSE_TEXTS:
+                PARSE_TEXTS.append(_t)
 PARSE_CANDS = ["0.5", "1", "1.0.1", "1.4", "1.4.5", "1.5", "1.5.3", "1.6", "1.9", "2", "2.5", "2.7", "3", "4", "1!0", "1!1"]
 
 
